@@ -10,6 +10,7 @@ rm -rf "/tmp/w$N"
 git -C /repo worktree remove --force "/tmp/r$N" 2>/dev/null || true
 rm -rf "/tmp/r$N"
 git -C /repo worktree add --detach "/tmp/r$N" HEAD >/dev/null
+cp /repo/Cargo.lock "/tmp/r$N/Cargo.lock"
 cp -a /verif "/tmp/w$N"
 sed -i "s#path = \"/repo/#path = \"/tmp/r$N/#" "/tmp/w$N/harness/Cargo.toml"
 echo "scratch verif: /tmp/w$N   scratch repo: /tmp/r$N"
